@@ -61,10 +61,10 @@ Definition init_store (nrec : nat) : store :=
 (** the three state-changing requests of the property *)
 Inductive opk :=
 | SetData (k : key) (v : val)          (* recording.set_data(k, v)        A:148-157 *)
-| AddMeta (kv : list (key * val))      (* recording.add_metadata({..})    A:159-165 *)
+| AddMeta (kv : list (key * val))      (* recording.add_metadata({..})    A:159-168 *)
 | AddMetaMut (kv : list (key * val)) (k : key) (v : val)
                                        (* d = {kv}; recording.add_metadata(d); d[k] = v  - the caller keeps using
-                                          its dict after the request returned (finding F12, see [late_view]) *)
+                                          its dict after the request returned (see [legacy_late_view]) *)
 | Save.                                (* cassette.save_recording(rec)    A:89-95, T:60-67 *)
 
 (** [o_idx]: position in its producer's workload (identification only);
@@ -74,22 +74,21 @@ Record op := Op { o_idx : nat; o_rec : nat; o_kind : opk; o_fail : bool }.
 Definition is_write (x : op) : bool :=
   match o_kind x with Save => false | _ => true end.
 
-(** What the flusher actually executes for a request.  A:165 enqueues
-    [lambda: self.wrapped_recording.add_metadata(metadata)]: the closure holds the caller's dict object, not its
-    items, so the items are read when the flusher runs the operation, i.e. after the caller's later change (the
-    change is part of the producer's atomic step here; a flusher that runs in between sees the unchanged dict,
-    which is the synchronous result).  Synchronous recording copies the items during the call
-    (memory_recording.py:67 [self.recording_metadata.update(metadata)]). *)
-Definition late_view (x : op) : op :=
+(** What the flusher executes for a request.  Since /repo commit ba7c02c, A:166 copies the caller's dict
+    ([metadata = dict(metadata)]) before A:168 enqueues [lambda: self.wrapped_recording.add_metadata(metadata)]:
+    the flusher applies the items as they were during the call, whatever the caller does to its dict afterwards -
+    the view of the current code is the identity ([step_fn], [step], [reach] below).
+
+    Before that commit the closure held the caller's dict object itself, so the items were read when the flusher
+    ran the operation, i.e. after the caller's later change (the change is part of the producer's atomic step here).
+    That behaviour is kept only as [legacy_late_view] for the witness C12_argument_alias_refuted (finding F12).
+    Synchronous recording copies the items during the call (memory_recording.py:67
+    [self.recording_metadata.update(metadata)]). *)
+Definition legacy_late_view (x : op) : op :=
   match o_kind x with
   | AddMetaMut kv k v => Op (o_idx x) (o_rec x) (AddMeta (kv ++ [(k, v)])) (o_fail x)
   | _ => x
   end.
-
-Definition args_stable_op (x : op) : bool :=
-  match o_kind x with AddMetaMut _ _ _ => false | _ => true end.
-(** the callers do not modify an object after passing it in a request *)
-Definition args_stable (w : list (list op)) : bool := forallb (forallb args_stable_op) w.
 
 (** One request executed against the wrapped cassette: new store and whether the call returned
     normally ([false] = it raised an Exception).  Unknown recording ordinals cannot be produced by
@@ -204,7 +203,7 @@ Inductive choice :=
     "close the AsyncRecording" (T:66-67), so a write on a recording whose save has been requested is
     always refused.  Non-strict ([false]) over-approximates that window: such a write may also be
     accepted (it then fails at the wrapped recording, R:35). *)
-Definition step_fn (strict : bool) (c : choice) (s : state) : option state :=
+Definition step_fn_v (view : op -> op) (strict : bool) (c : choice) (s : state) : option state :=
   match c with
   | CProduce i =>
       if lock_held (fl s) then None else
@@ -248,10 +247,10 @@ Definition step_fn (strict : bool) (c : choice) (s : state) : option state :=
   | CExec =>
       match fl s with
       | Batch (x :: r) =>
-          let '(st', ok) := apply_op (wstore s) (late_view (snd x)) in
+          let '(st', ok) := apply_op (wstore s) (view (snd x)) in
           Some (State (pending s) (aclosed s) (buffer s) (Batch r) (stop s) (applied s ++ [(x, ok)]) st' (hist s))
       | Final (x :: r) =>
-          let '(st', ok) := apply_op (wstore s) (late_view (snd x)) in
+          let '(st', ok) := apply_op (wstore s) (view (snd x)) in
           Some (State (pending s) (aclosed s) (buffer s) (Final r) (stop s) (applied s ++ [(x, ok)]) st' (hist s))
       | _ => None
       end
@@ -276,6 +275,9 @@ Definition step_fn (strict : bool) (c : choice) (s : state) : option state :=
       end
   end.
 
+(** the current code: the flusher applies exactly what was passed *)
+Definition step_fn : bool -> choice -> state -> option state := step_fn_v (fun x => x).
+
 (** the step relation the theorems quantify over: any enabled choice, non-strict (the larger relation) *)
 Definition step (s s' : state) : Prop := exists c, step_fn false c s = Some s'.
 
@@ -284,14 +286,17 @@ Inductive reach (nrec : nat) (w : list (list op)) : state -> Prop :=
 | reach_step s s' : reach nrec w s -> step s s' -> reach nrec w s'.
 
 (** deterministic runner for the correspondence: [None] as soon as a choice is not enabled *)
-Fixpoint run_schedule (strict : bool) (cs : list choice) (s : state) : option state :=
+Fixpoint run_schedule_v (view : op -> op) (strict : bool) (cs : list choice) (s : state) : option state :=
   match cs with
   | [] => Some s
-  | c :: cs' => match step_fn strict c s with
-                | Some s' => run_schedule strict cs' s'
+  | c :: cs' => match step_fn_v view strict c s with
+                | Some s' => run_schedule_v view strict cs' s'
                 | None => None
                 end
   end.
+Definition run_schedule : bool -> list choice -> state -> option state := run_schedule_v (fun x => x).
+(** the pre-ba7c02c code (witness of F12 only) *)
+Definition legacy_run_schedule : bool -> list choice -> state -> option state := run_schedule_v legacy_late_view.
 
 (** * The invariant (statement only; proved in AsyncFacts.v) *)
 
@@ -307,9 +312,8 @@ Definition Inv (nrec : nat) (w : list (list op)) (s : state) : Prop :=
   (match fl s with PreFinal | FLocked | Final _ | Done => stop s = true | _ => True end) /\
   (* I4: nothing is left in the buffer behind the final swap *)
   (match fl s with Final _ | Done => buffer s = [] | _ => True end) /\
-  (* I5: the wrapped cassette and the outcome log are those of running the applied operations one after the other
-         (arguments as the flusher sees them) *)
-  (wstore s, applied s) = run_ops_v late_view (init_store nrec) (map fst (applied s)) /\
+  (* I5: the wrapped cassette and the outcome log are those of running the applied operations synchronously *)
+  (wstore s, applied s) = run_ops (init_store nrec) (map fst (applied s)) /\
   (* I6: per producer, issued requests followed by pending requests = its workload (order-preserving merge,
          nothing lost, nothing invented) *)
   length (pending s) = length w /\
